@@ -230,8 +230,23 @@ static op_t *OPTAB[NKINDS] = {OPS_HASH, OPS_LISTTBL, OPS_LIST, OPS_QUEUE, OPS_ST
 /* battery of normal operations applied identically to the injected container and to its reference twin */
 static uint64_t battery(ctx_t *c) {
     uint64_t h = VF_H0;
-    for (op_t *o = OPTAB[c->kind]; o->name; o++) { res_t r = o->call(c, 0); h = vf_hash(&r.ok, sizeof r.ok, h) ^ r.val; }
+    /* index-addressed operations (getat / popat / addat / removeat / setat) run at every position variant, the middle one first: whatever a
+     * container remembers between calls about positions (a cursor, a cached node) must not have been left stale by the failed call */
+    for (op_t *o = OPTAB[c->kind]; o->name; o++) { bool indexed = strstr(o->name, "at") != NULL && o->nvar == 3;
+        for (int i = 0; i < (indexed ? 3 : 1); i++) { int v = indexed ? (int[]){1, 2, 0}[i] : 0; res_t r = o->call(c, v); h = vf_hash(&r.ok, sizeof r.ok, h) ^ (r.val * (uint64_t)(2 * i + 1)); } }
     return h ^ digest(c);
+}
+/* non-mutating, non-allocating reads issued before the call under test (and on every twin alike): the call starts from a container that has
+ * been used, with whatever it caches about the last access in place */
+static void warm(ctx_t *c) {
+    size_t sz;
+    switch (c->kind) {
+    case K_LIST: case K_QUEUE: case K_STACK: case K_GROW: { qlist_t *l = inner(c); if (l->num) { l->getat(l, (int)(l->num / 2), &sz, false); if (l->num > 3) l->getat(l, (int)(l->num / 2) + 1, &sz, false); } break; }
+    case K_VECTOR: if (c->vec->num) c->vec->getat(c->vec, (int)(c->vec->num / 2), false); break;
+    case K_HASH: c->hash->get(c->hash, key(c->n / 2), &sz, false); break;
+    case K_LISTTBL: c->ltbl->get(c->ltbl, key(c->n / 2), &sz, false); break;
+    default: break;
+    }
 }
 
 static void viol(const char *kind, const char *op, const char *cls, const char *fmt, ...) __attribute__((format(printf, 4, 5)));
@@ -247,6 +262,7 @@ static void enumerate_op(int kind, op_t *o, int v, int n, int cfg) {
         ctx_t A, B;
         long mark = vf_ledger_mark();
         if (!build(&A, kind, n, cfg) || !build(&B, kind, n, cfg)) { fprintf(stderr, "h_oom: cannot build state\n"); exit(2); }
+        warm(&A); warm(&B);
         vf_case_begin(vf_cur_case, "%s.%s variant=%d state n=%d cfg=%d fail k=%ld %s", KNAME[kind], o->name, v, n, cfg, k, mode ? "all-subsequent" : "single");
         res_t rB = o->call(&B, v);
         uint64_t dB = digest(&B);
@@ -269,7 +285,7 @@ static void enumerate_op(int kind, op_t *o, int v, int n, int cfg) {
         else if (!rA.ok) {
             vf_count("oom_reported_failure", 1);
             if (dA != d0) viol(KNAME[kind], o->name, "changed-on-failure", "call reported failure (errno %d) but the observable state changed (state n=%d, k=%ld)", rA.err, n, k);
-            else { ctx_t C; if (build(&C, kind, n, cfg)) { if (battery(&A) != battery(&C)) viol(KNAME[kind], o->name, "battery-after-failure", "normal operations after the reported failure behave differently from an untouched twin"); destroy(&C); } }
+            else { ctx_t C; if (build(&C, kind, n, cfg)) { warm(&C); if (battery(&A) != battery(&C)) viol(KNAME[kind], o->name, "battery-after-failure", "normal operations after the reported failure behave differently from an untouched twin"); destroy(&C); } }
         } else {
             vf_count("oom_completed_despite_failure", 1);
             if (!rB.ok) viol(KNAME[kind], o->name, "harness", "reference run failed");
